@@ -42,9 +42,25 @@ pub enum Op {
     DropClones,
 }
 
+/// Real threads under the cooperative scheduler (coop.rs): preemption inside library calls.
+#[derive(Clone, Debug, Serialize, Deserialize)]
+pub struct CoopSpec {
+    pub group: String,
+    /// the one parameter object all threads share clones of
+    pub bits: usize,
+    pub cap: usize,
+    pub ext: usize,
+    pub threads: Vec<Vec<Op>>,
+    /// seed of the schedule and (out of 16) the probability of not switching at an interception point
+    pub seed: u64,
+    pub stay: u64,
+}
+
 #[derive(Clone, Debug, Serialize, Deserialize)]
 pub struct Scenario {
     pub group: String,
+    #[serde(default)]
+    pub coop: Option<CoopSpec>,
     pub clients: Vec<Vec<Op>>,
     /// two interleavings: sequences of client indices (a client index appears once per op)
     pub schedule_a: Vec<usize>,
@@ -168,6 +184,91 @@ fn run_schedule<G: Group>(sc: &Scenario, schedule: &[usize], repeat: bool, st: &
         results[*c][k] = d;
     }
     results
+}
+
+fn run_coop<G: Group>(cs: &CoopSpec, st: &mut RunStats) -> Vec<Violation>
+where
+    tari_bulletproofs_plus::range_parameters::RangeParameters<G>: Send + Sync,
+{
+    let mut out = Vec::new();
+    // sequential reference: every operation alone, on fresh parameter objects
+    let reference: Vec<Vec<String>> = cs
+        .threads
+        .iter()
+        .map(|ops| {
+            ops.iter()
+                .map(|op| {
+                    crate::free::reset_run_state();
+                    let mut env = Env::<G>::new(1);
+                    exec_op(&mut env, 0, op)
+                })
+                .collect()
+        })
+        .collect();
+    let shared = match G::params(cs.bits, cs.cap, G::pedersen(cs.ext)) {
+        Ok(p) => p,
+        Err(e) => {
+            out.push(Violation::new("harness:params_refused", "setup", format!("{:?}", e)));
+            return out;
+        },
+    };
+    let jobs: Vec<Box<dyn FnOnce() -> Vec<String> + Send + '_>> = cs
+        .threads
+        .iter()
+        .map(|ops| {
+            let p = shared.clone();
+            let key = (cs.bits, cs.cap, cs.ext);
+            Box::new(move || {
+                let mut env = Env::<G>::new(1);
+                env.pool.insert(key, p);
+                ops.iter().map(|op| exec_op(&mut env, 0, op)).collect::<Vec<String>>()
+            }) as Box<dyn FnOnce() -> Vec<String> + Send + '_>
+        })
+        .collect();
+    let (results, rep) = crate::coop::run_threads(cs.seed, cs.stay, jobs);
+    st.fault("preemption_inside_library_calls");
+    st.probe_n("coop_interception_points", rep.points);
+    st.probe_n("coop_thread_switches", rep.switches);
+    st.evals += cs.threads.iter().map(|t| t.len() as u64).sum::<u64>();
+    st.event(format!(
+        "coop group={} threads={} points={} switches={} trace={:016x}",
+        cs.group,
+        cs.threads.len(),
+        rep.points,
+        rep.switches,
+        rep.trace_hash
+    ));
+    for (t, r) in results.iter().enumerate() {
+        match r {
+            Err(msg) => {
+                out.push(Violation::new(
+                    "concurrent_call_panicked",
+                    "coop",
+                    format!(
+                        "{} threads sharing one parameter object (bits {}, capacity {}, ext {}), schedule seed {:x}: thread {} panicked outside the library's error handling: {}",
+                        cs.threads.len(), cs.bits, cs.cap, cs.ext, cs.seed, t, msg
+                    ),
+                ));
+                return out;
+            },
+            Ok(digests) => {
+                for (k, d) in digests.iter().enumerate() {
+                    if *d != reference[t][k] {
+                        out.push(Violation::new(
+                            "concurrent_result_differs_from_sequential",
+                            op_kind(&cs.threads[t][k]),
+                            format!(
+                                "{} threads sharing one parameter object (bits {}, capacity {}, ext {}), schedule seed {:x}: thread {} op {} ({}) gives {} when interleaved with the other threads' calls but {} when executed alone",
+                                cs.threads.len(), cs.bits, cs.cap, cs.ext, cs.seed, t, k, short(&cs.threads[t][k]), d, reference[t][k]
+                            ),
+                        ));
+                        return out;
+                    }
+                }
+            },
+        }
+    }
+    out
 }
 
 fn run<G: Group>(sc: &Scenario, st: &mut RunStats) -> Vec<Violation> {
@@ -344,15 +445,55 @@ impl Check for C18 {
             }
             clients.push(ops);
         }
+        // cooperative-thread part: 2-3 threads over ONE shared parameter object whose capacity exceeds
+        // every aggregate, each thread proving / verifying aggregates of different sizes
+        let coop = if index % 2 == 0 {
+            let cfree = index % 6 != 4;
+            let bits = *rng.pick(&[2usize, 2, 4, 8]);
+            let cap = *rng.pick(&[4usize, 8]);
+            let ext = if rng.chance(1, 2) { 1 } else { rng.range(1, 6) as usize };
+            let n_threads = rng.range(2, 3) as usize;
+            let mk = |rng: &mut SimRng| -> ProveDesc {
+                let m = *rng.pick(&[1usize, 1, 2, 4]);
+                let cfg = Config { bits, m: m.min(cap), cap, ext };
+                ProveDesc { cfg, wit: WitnessSpec::generate(rng, &cfg, true), ctx: Context::generate(rng), rng: RngMode::Healthy(rng.next_u64()) }
+            };
+            let threads: Vec<Vec<Op>> = (0..n_threads)
+                .map(|_| {
+                    (0..rng.range(1, 3))
+                        .map(|_| match rng.below(5) {
+                            0 => Op::Prove(mk(rng)),
+                            1 => Op::Codec(mk(rng)),
+                            _ => {
+                                let k = rng.range(1, 3) as usize;
+                                let members: Vec<ProveDesc> = (0..k).map(|_| mk(rng)).collect();
+                                let corrupt = if rng.chance(1, 5) { Some(rng.usize_below(k)) } else { None };
+                                Op::Verify { members, action: rng.usize_below(3), corrupt }
+                            },
+                        })
+                        .collect()
+                })
+                .collect();
+            Some(CoopSpec { group: if cfree { "free".into() } else { "ristretto".into() }, bits, cap, ext, threads, seed: rng.next_u64(), stay: *rng.pick(&[4u64, 8, 12, 14]) })
+        } else {
+            None
+        };
         let mut base: Vec<usize> = clients.iter().enumerate().flat_map(|(i, c)| std::iter::repeat(i).take(c.len())).collect();
         let mut schedule_a = base.clone();
         rng.shuffle(&mut schedule_a);
         rng.shuffle(&mut base);
-        Scenario { group: if free { "free".into() } else { "ristretto".into() }, clients, schedule_a, schedule_b: base }
+        Scenario { group: if free { "free".into() } else { "ristretto".into() }, coop, clients, schedule_a, schedule_b: base }
     }
 
     fn execute(&self, sc: &Scenario, st: &mut RunStats) -> Vec<Violation> {
-        by_group!(sc.group, run(sc, st))
+        let mut v = by_group!(sc.group, run(sc, st));
+        if v.is_empty() {
+            if let Some(cs) = &sc.coop {
+                v = by_group!(cs.group, run_coop(cs, st));
+                // the cooperative run reset this thread's per-run state; nothing follows it
+            }
+        }
+        v
     }
 
     fn shrink(&self, sc: &Scenario) -> Vec<Scenario> {
@@ -381,10 +522,35 @@ impl Check for C18 {
             s.group = "free".into();
             v.push(s);
         }
+        if let Some(cs) = &sc.coop {
+            // keep only the cooperative part / drop it
+            if !sc.clients.iter().all(|c| c.is_empty()) {
+                let mut s = sc.clone();
+                s.clients.iter_mut().for_each(|c| c.clear());
+                v.push(s);
+            }
+            let mut s = sc.clone();
+            s.coop = None;
+            v.push(s);
+            for t in 0..cs.threads.len() {
+                if cs.threads[t].len() > 1 {
+                    let mut s = sc.clone();
+                    s.coop.as_mut().unwrap().threads[t].pop();
+                    v.push(s);
+                }
+            }
+            if cs.threads.len() > 2 {
+                for t in 0..cs.threads.len() {
+                    let mut s = sc.clone();
+                    s.coop.as_mut().unwrap().threads.remove(t);
+                    v.push(s);
+                }
+            }
+        }
         v
     }
 
     fn required_probes(&self, _tier: Tier) -> Vec<&'static str> {
-        vec!["injected_rng_panic_caught", "second_interleaving"]
+        vec!["injected_rng_panic_caught", "second_interleaving", "preemption_inside_library_calls", "coop_thread_switches"]
     }
 }
